@@ -297,3 +297,28 @@ func vrenderTTML(doc *TTMLIn, items TTMLInItems) []byte {
 	x += "</div></body></tt>"
 	return []byte(x)
 }
+
+// C03 H1d: tick and frame counts over their whole practical range (counts as they are after parsing): the resolved
+// instant is within one nanosecond of count/rate seconds.  INT encoding with relaxed floats (a gross error such as an
+// integer overflow is found; sub-nanosecond exactness for few-digit counts is the business of VH_C03_OffsetTime).
+func VH_C03_TicksAndFramesRange() {
+	vmode("int")
+	var d TTMLInDuration
+	var cnt, rate int64
+	if choose(2) == 0 {
+		cnt = nondetInt64(1, 100*3600*10000000) // up to 100 h at 10 MHz
+		rate = []int64{1, 1000, 90000, 10000000}[choose(4)]
+		d.ticks, d.tickrate = int(cnt), int(rate)
+	} else {
+		cnt = nondetInt64(1, 100*3600*60)
+		rate = []int64{24, 25, 30, 60}[choose(4)]
+		d.frames, d.framerate = int(cnt), int(rate)
+	}
+	vassume(cnt/rate < 100*3600) // below 100 hours
+	got := int64(d.duration())
+	// exact instant without leaving int64: whole seconds plus the remainder's share of a second
+	q, r := cnt/rate, cnt%rate
+	floor := q*1000000000 + r*1000000000/rate
+	vassert(vand(got >= floor-1, got <= floor+1), "C03 tick/frame counts resolve to count/rate seconds over the whole range")
+	vreach("end")
+}
